@@ -311,9 +311,14 @@ def _order(ctx, rep, cm, fm=None):
         lost = [h for h in st_.ORDER_LOSING if st_.find(subj[2], h)]
         mapped = st_.find(subj[2], "map")
         is_split = isinstance(words, tuple) and words and words[0] in ("resplit", "ssplit")
+        dedup = [h for h in st_.MULTIPLICITY_LOSING if st_.find(subj[2], h)]
         if lost:
             rep.violated("order-provenance", c + " iterates the split words in order", where,
                          "the subject goes through {}(): the word order of the text is lost".format(lost[0]))
+        elif dedup:
+            rep.violated("order-provenance", c + " iterates the split words in order", where,
+                         "the split words go through dict.fromkeys(): a word that occurs twice in the text is "
+                         "kept once")
         elif mapped:
             rep.violated("order-provenance", c + " elements are the words", where,
                          "subject elements are {} (not the words themselves)".format(
